@@ -19,6 +19,7 @@ RULE = (
     "EOF => an ordinary exception after <= 2 EOF reads, inside the step budget. state = (reply, api, cut set, eof offset) schedule; transition = one chunk/EOF delivery. "
     "Also through the public API: two unprotect calls per process to a mixed-case server whose key-service connection is closed 0/1/9/16/40 octets into its bind_ack or GetKey reply - each call raises after <= 4 connections. The whole check runs under socket.setdefaulttimeout(0.25); the fake socket honours a finite timeout left on it. "
     "Non-trivial = at least one cut or an EOF (the environment deviated from the default answer)."
+    ' Half of the async schedules drive the client through `async with`; the async transport exposes a socket object whose SO_RCVLOWAT, if set, delays delivery as the kernel would.'
 )
 ASSUME = ["a read returns between 1 and n available bytes, or EOF; this is what FakeSocket / feed_data model", "the peer sends exactly one reply per client PDU"]
 BOUND = {"quick": "<=2 cuts for replies <=200 bytes; large replies: cut1 in first 32 bytes x boundary list; header compositions for one reply", "thorough": "<=2 cuts for replies <=400 bytes; large replies: cut1<=32 x every cut2; header compositions for every reply kind"}
